@@ -45,16 +45,20 @@ impl Slot {
 
     /// Generates a named slot like `$xyz`
     pub fn named(s: &str) -> Slot {
-        if let Some(x) = canonical_u32(s) {
-            return Slot(x * 4); // numeric
+        // a number that does not fit the encoding is an ordinary name.
+        if let Some(v) = canonical_u32(s).and_then(|x| x.checked_mul(4)) {
+            return Slot(v); // numeric
         }
 
         SLOT_TABLE.with_borrow_mut(|tab| {
             if s.starts_with("f") {
-                if let Some(x) = canonical_u32(&s[1..]) {
-                    let out = x * 4 + 1;
+                let fits = canonical_u32(&s[1..])
+                    .and_then(|x| x.checked_mul(4))
+                    .and_then(|v| v.checked_add(5));
+                if let Some(next) = fits {
+                    let out = next - 4;
                     if tab.fresh_idx <= out {
-                        tab.fresh_idx = out + 4;
+                        tab.fresh_idx = next;
                     }
                     return Slot(out); // fresh
                 }
